@@ -1,12 +1,13 @@
 CONSTANTS
   HashMode = "real"
   Bug = "none"
-  Sweeps = {"small", "hsmall", "xsmall"}
+  Sweeps = {"small", "hsmall", "xsmall", "ssmall"}
   PairDepth = 2
   NearDepth = 2
   DeepDepth = 3
   HierDepth = 3
   XDepth = 1
+  SelfDepth = 3
   Wide = TRUE
   EmitCases = FALSE
 INIT Init
